@@ -7,6 +7,8 @@
  * Between records nothing is reset either; the caller decides what a "history" is by choosing
  * what to put in one process. */
 #define _GNU_SOURCE
+#include <sys/prctl.h>
+#include <signal.h>
 #include <stdio.h>
 #include <stdlib.h>
 #include <string.h>
@@ -48,6 +50,7 @@ static unsigned char *slurp(int fd, uint32_t *len) {
 }
 
 int main(void) {
+  prctl(PR_SET_PDEATHSIG, SIGKILL);   /* die with the harness process that started us */
   int src = dup(0);
   resfd = dup(1);
   outfd = memfd_create("out", 0);
